@@ -1,7 +1,7 @@
 """C01: query results equal the documented YAML Path segment semantics.
 
-Case = (document text, [paths]); per path three observations (required query,
-optional query, exists()).  The judge evaluates an independent reference of the
+Case = (document text, [paths]); per path four observations (required query,
+optional query, exists(), optional query with a default_value).  The judge evaluates an independent reference of the
 documented semantics (README "Supported YAML Path Segments"; DESIGN Appendix C;
 coq/Spec/SpecC01.v is the same definition in Gallina) on the loaded document
 and compares node identities, order and multiplicity with what the real
@@ -13,6 +13,7 @@ import random
 import re as _re
 from ast import literal_eval
 
+import c12
 import evalcommon as ec
 from evalcommon import init_worker, describe, undescribe, key  # noqa: F401
 from common import sexp_parse
@@ -22,15 +23,17 @@ CONFIG = {
     "rule": ("documents and paths of the C15 stream restricted to the C01 fragment (key, index, slice, anchor, "
              "search with all nine operators / inversion / attribute '.', named, descendant, wildcard, deep "
              "traversal; no collectors, no keyword searches); every path is evaluated in dot notation and, when it "
-             "can be transcribed, in forward-slash notation (paired in one case); required, optional and exists().  "
+             "can be transcribed, in forward-slash notation (paired in one case); required, optional (without and "
+             "with a default_value) and exists(); plus single-path cases: numbers equal to the term under every "
+             "ordering operator, existing paths ending at / passing through null values.  "
              "non-trivial = the required query returned nodes; distinct = distinct (document, path list)."),
     "trusted_base": [
         "modelled, not verified: yamlpath/processor.py 59-167, 811-2627; common/searches.py; Nodes.typed_value",
         "the reference semantics used by the judge (harness/c01.py ref_*) is hand-written from README 'Supported YAML "
         "Path Segments' and DESIGN Appendix C; it is compared on every case with the extracted coq/Spec/SpecC01.v "
         "sem_doc (request '(sem ...)', ocaml/drv_sem.ml), the specification the C01 theorems are stated against",
-        "value comparison of search operators is delegated to the real Searches.search_matches (C12 is the property "
-        "about it)",
+        "value comparison of search operators: the independent reference c12.spec_answer (the judge of property C12), "
+        "not the library's Searches.search_matches",
     ],
     "assumptions": [
         "the model is the code only as far as the correspondence run shows",
@@ -108,7 +111,16 @@ def anchor_of(x):
 
 
 def matches(method, term, hay):
-    return ec._ENV["Searches"].search_matches(method, term, hay)
+    """The documented answer of one search operator (README "Search expressions", PathSearchMethods): an
+    INDEPENDENT reference - c12.spec_answer, the judge of property C12 - never the library's own
+    Searches.search_matches: equality is numeric when value and term are numbers of the same kind and textual
+    otherwise, booleans compare by their case-insensitive spelling, ordering is numeric for numeric values (false
+    against a non-numeric term) and lexicographic for text, ^ $ % look at the value's text, =~ is an unanchored
+    regular-expression search."""
+    try:
+        return bool(c12.spec_answer(method.name, term, hay))
+    except _re.error:
+        raise Unspecified("invalid regular expression")
 
 
 def ref_sel(seg, x, tl=True):
@@ -307,6 +319,9 @@ def result_ids(line):
 _REF = {}
 
 
+N = 4        # observations per path: required, optional, exists(), optional with a default_value
+
+
 def sem_line(ref):
     """the reference's answer in the format of ocaml/drv_sem.ml"""
     kind, want, _ = ref
@@ -317,10 +332,11 @@ def sem_line(ref):
 
 
 def requests(case):
-    """per path the three queries of the model of the code, then per path the EXTRACTED SPECIFICATION
-    (Spec/SpecC01.v sem_doc) -- compared with the Python reference below"""
+    """per path the four queries of the model of the code (the optional one twice: without and with a
+    default_value), then per path the EXTRACTED SPECIFICATION (Spec/SpecC01.v sem_doc) -- compared with the
+    Python reference below"""
     doc, paths = case
-    out = ec.requests(case)
+    out = ec.requests4(case)
     ld = ec.LoadedDoc(doc)
     for p in paths:
         lit, re_t = ec.tables_for(ld, p)
@@ -330,7 +346,7 @@ def requests(case):
 
 def observe(case):
     doc, paths = case
-    obs = ec.observe(case)
+    obs = ec.observe4(case)
     ld = ec.LoadedDoc(doc)
     refs = [reference(ld, p) for p in paths]
     _REF[(doc, tuple(paths))] = refs
@@ -351,7 +367,7 @@ def failures(case, obs, refs=None):
     ld = None
     out = []
     for i, p in enumerate(paths):
-        req, opt, ex = obs[3 * i], obs[3 * i + 1], obs[3 * i + 2]
+        req, opt, ex, optd = obs[N * i], obs[N * i + 1], obs[N * i + 2], obs[N * i + 3]
         if matched(req) and ex != "(ok true)":
             out.append((p, "exists(%r) is %s although the required query matches on %r" % (p, ex, doc), None))
         if (req == "(raise ype)" or req == "(ok ())") and ex == "(ok true)":
@@ -387,21 +403,62 @@ def failures(case, obs, refs=None):
                 elif line.startswith("(ok (") and result_ids(line) != got or line == "(raise ype)":
                     out.append((p, "%r selects %s but its transcription %r selects %s on %r"
                                 % (p, got, twin, line[:80], doc), None))
-        if opt.startswith("(ok (") and want:
-            got_o = result_ids(opt)
-            if got_o != want:
-                if ld is None:
-                    ld = ec.LoadedDoc(doc)
-                null_id = ld.enc.oids.get(id(None))
-                extra = list(got_o)
-                for w in want:
-                    if w in extra:
-                        extra.remove(w)
-                only_nulls = bool(extra) and all(x == null_id for x in extra) and \
-                    [x for x in got_o if x != null_id or x in want] is not None
-                out.append((p, "optional %r on %r (existing path) selects %s, required/documented %s"
-                            % (p, doc, got_o, want), "null" if only_nulls else (multi or None)))
+        if not want:
+            continue
+        # the optional query - without and with a default_value - on a path that already exists: the same nodes,
+        # and the document as it was
+        for line, default in ((opt, None), (optd, ec.OPT_DEFAULT)):
+            f = optional_failure(doc, p, line, default, want, multi)
+            if f is not None:
+                out.append(f)
+                break
     return out
+
+
+def optional_failure(doc, p, line, default, want, multi):
+    """One optional query against the required / documented answer `want` (non-empty: the path exists).
+    "A path that already exists": every branch the optional walk reaches has the next segment (no segment
+    evaluation of the walk comes back empty - ec.optional_probe's `lacking`); where one lacks it the query is the
+    documented creating query (C09's finding F16b), about which C01 says nothing."""
+    how = "optional %r%s" % (p, "" if default is None else " with default_value %r" % (default,))
+    if line.startswith("(ok ("):
+        got_o = result_ids(line)
+        if got_o == want:
+            return None
+        pr = ec.optional_probe(doc, p, default)
+    elif line == "(mutates)":
+        # the shared observer hides the answer of a query that changed the document (or built a node): look again
+        pr = ec.optional_probe(doc, p, default)
+        got_o = pr["ids"]
+    else:
+        return None           # a refusal / crash of the optional query: C15's and C09's business
+    if pr["lacking"]:
+        return None
+    if got_o is None:
+        return None
+    if got_o == want and not pr["changed"]:
+        return None
+    if got_o == want:
+        return (p, "%s on %r (existing path) selects the documented nodes but changes the document" % (how, doc),
+                None)
+    null_id = NULL_ID(doc)
+    extra = list(got_o)
+    for w in want:
+        if w in extra:
+            extra.remove(w)
+    rest = [x for x in got_o if x != null_id]
+    # F10: the walk stopped at a null that a segment OTHER than the last one selected, and yields it; apart from
+    # such nulls the answer is the documented one
+    f10 = bool(extra) and all(x == null_id for x in extra) and pr["null_mid"] and not pr["changed"] \
+        and rest == [w for w in want if w != null_id]
+    return (p, "%s on %r (existing path) selects %s%s, required/documented %s"
+            % (how, doc, got_o, " and changes the document" if pr["changed"] else "", want),
+            "null" if f10 else (multi or None))
+
+
+def NULL_ID(doc):
+    ld = ec.LoadedDoc(doc)
+    return ld.enc.oids.get(id(None))
 
 
 def other_notation(path):
@@ -459,12 +516,12 @@ FINDING_PREDS = {"optional_stops_at_null": f10_optional_stops_at_null, "multi_de
 
 
 def classify(case, obs):
-    n = sum(1 for i in range(0, 3 * len(case[1]), 3) if obs[i].startswith("(ok ("))
+    n = sum(1 for i in range(0, N * len(case[1]), N) if obs[i].startswith("(ok ("))
     return "docsize%02d:%s" % (min(len(case[0]) // 10, 20), "some" if n else "none")
 
 
 def nontrivial(case, obs):
-    return any(l.startswith("(ok (") and l != "(ok ())" for l in obs[:3 * len(case[1])])
+    return any(l.startswith("(ok (") and l != "(ok ())" for l in obs[:N * len(case[1])])
 
 
 def in_fragment(path):
@@ -480,9 +537,37 @@ def corpus_chunks():
                                                                  "x.b[1:1]", "x.b[7:9]", "x[0][a:b]"])]
 
 
+# small single-path cases (a failing one makes a minimal replay): numbers that EQUAL the term under every ordering
+# operator, by kind of number and of term; null values at the end of / on the way along existing paths
+NUM_DOCS = ["[1.5]", "[1, 1.5, 2]", "{a: 1.5}", "[{a: 1.5}, {a: 1}, {a: 2.5}]", "[1.0, 1, '1', '1.0']",
+            "{a: 2, b: 2.0, c: '2'}", "[-1, -1.0, 0, 0.0]", "s: !!set\n  ? 1.5\n  ? 2\n", "{1.5: x, 2: y}"]
+NUM_TERMS = ["1.5", "1", "1.0", "2", "2.0", "-1", "0", "0.0", "a"]
+NUM_OPS = ["<=", ">=", "<", ">", "=", "=="]
+NULL_DOCS = ["{a: null}", "{a: {b: null}}", "[{a: null}]", "{a: [null]}", "[null]", "{a: null, b: 1}", "[null, 1]",
+             "{a: {b: null, c: 1}}", "[{a: null}, {a: null}]", "{a: ~, b: {a: ~}}", "[[null]]", "{a: [{b: null}]}"]
+NULL_PATHS = ["a", "/a", "a.b", "/a/b", "[0].a", "a[0]", "[0]", "/[0]", "*", "**", "a.*", "b.a", "[0][0]", "a[0].b",
+              "a.b.c", "[.=~/./]", "[a=1]", "[1]", "b", "a.c", "[&x]"]
+
+
+def mini_cases():
+    for d in NUM_DOCS:
+        for at in (".", "a"):
+            if at == "a" and "a:" not in d:
+                continue
+            for op in NUM_OPS:
+                for t in NUM_TERMS:
+                    for inv in ("", "!"):
+                        yield (d, ["[%s%s%s%s]" % (at, inv, op, t)])
+    for d in NULL_DOCS:
+        for p in NULL_PATHS:
+            yield (d, [p])
+
+
 def chunks(tier, seed):
     def gen():
         thorough = tier == "thorough"
+        for c in mini_cases():
+            yield c
         for i, (d, paths) in enumerate(ec.gen_cases(tier, seed, with_collectors=False)):
             ps = [p for p in paths if in_fragment(p)]
             if ps and (not thorough or i % 2 == 0):
